@@ -120,7 +120,7 @@ func (st *c05State) buildPrograms(un *c05Unit, r *rng, newID func() int) {
 		switch {
 		case reg == "":
 			mainP = append(mainP, p)
-		case reg == "field-method-depth" || reg == "assert-static-ptr":
+		case reg == "field-method-depth" || reg == "assert-static-ptr" || reg == "embed-cycle":
 			singleP = append(singleP, p)
 		default:
 			regionP = append(regionP, p)
@@ -130,9 +130,14 @@ func (st *c05State) buildPrograms(un *c05Unit, r *rng, newID func() int) {
 		return &c05ProbeX{c05Probe: p, Dyn: p.T, Subs: []*c05Sub{{ID: newID(), Labels: labels, Region: region, Tgt: -1}}}
 	}
 	selNames := append(append([]string{}, c05FieldNames...), c05MethNames...)
+	cyc := u.cyclic()
 	for t := range u.Structs {
 		for _, name := range selNames {
-			g, _, region := u.selRegion(t, name)
+			g, y, region := u.selRegion(t, name)
+			if cyc && ((g.Kind == "field" || g.Kind == "method") && u.pathCrossesForwardPtr(t, g.Path) ||
+				(y.Kind == "field" || y.Kind == "method") && u.pathCrossesForwardPtr(t, y.Path)) {
+				continue
+			}
 			switch g.Kind {
 			case "field":
 				if region == "" && r.chance(45) {
@@ -196,6 +201,9 @@ func (st *c05State) buildPrograms(un *c05Unit, r *rng, newID func() int) {
 	}
 	// assertions
 	nAssert := 3
+	if cyc {
+		nAssert = 0
+	}
 	for k := 0; k < nAssert; k++ {
 		t := r.intn(len(u.Structs))
 		ptr := r.bool()
@@ -273,6 +281,9 @@ func (st *c05State) buildPrograms(un *c05Unit, r *rng, newID func() int) {
 	}
 	// type switches
 	nSwitch := 4
+	if cyc {
+		nSwitch = 0
+	}
 	for k := 0; k < nSwitch; k++ {
 		t := r.intn(len(u.Structs))
 		ptr := r.bool()
@@ -349,7 +360,7 @@ func (st *c05State) buildPrograms(un *c05Unit, r *rng, newID func() int) {
 		add(p)
 	}
 	// nil interface values
-	{
+	if !cyc {
 		t := r.intn(len(u.Structs))
 		if len(u.gMethodSet(t, true)) > 0 {
 			src := u.pickSrc(r, t, true, "")
@@ -401,7 +412,11 @@ func (st *c05State) buildPrograms(un *c05Unit, r *rng, newID func() int) {
 		}
 		return l
 	}
-	mainSel, regSel, singles := limit(mainP, 40), limit(regionP, 24), limit(singleP, 4)
+	nm, nr, ns := 40, 24, 4
+	if u.cyclic() {
+		nm, nr, ns = 8, 4, 3
+	}
+	mainSel, regSel, singles := limit(mainP, nm), limit(regionP, nr), limit(singleP, ns)
 	var all []*c05ProbeX
 	all = append(append(append(all, mainSel...), regSel...), singles...)
 	if len(all) == 0 {
@@ -430,7 +445,7 @@ func (st *c05State) buildPrograms(un *c05Unit, r *rng, newID func() int) {
 		for _, p := range ps {
 			probes = append(probes, p.c05Probe)
 		}
-		pu := &c05ProgUnit{name: name, src: c05Program(u, probes, "main"), region: region, probes: probes}
+		pu := &c05ProgUnit{name: name, src: c05Program(u, probes, "main"), region: region, probes: probes, child: u.cyclic()}
 		un.progs = append(un.progs, pu)
 		un.px = append(un.px, ps)
 	}
@@ -454,7 +469,7 @@ func (st *c05State) splitAssert(p *c05ProbeX, add func(*c05ProbeX)) {
 			subs = subs[:2]
 		}
 		q := &c05ProbeX{c05Probe: &c05Probe{Kind: "assert", T: p.T, Ptr: p.Ptr, Src: p.Src}, Dyn: p.Dyn}
-		if reg == "assert-sig" {
+		if reg == "assert-sig" || reg == "assert-methodset" {
 			// the assertion wrongly succeeds; calling the mismatched method would panic for another reason
 			q.Form = "nouse"
 		}
@@ -636,6 +651,9 @@ func (st *c05State) coqCase(u *c05Univ, px *c05ProbeX, sub *c05Sub, ys, gs map[s
 			if strings.HasPrefix(ys["end"], "compile-error") && strings.Contains(ys["end"], "ambiguous selector") {
 				obs = "(OSel RAmbig)"
 			}
+			if ys["end"] == "host-crash" {
+				obs = "(OSel RCrash)"
+			}
 			return &c05Case{ID: sub.ID, Kind: "psel", Region: sub.Region, Coq: fmt.Sprintf("(%s, %d, %s, %s, %s, %s)", coqN(sub.ID), px.T, coqStr(px.Name), form, obs, coqObs(gsel, gwhy))}
 		}
 		ysel, ywhy := px.decodeSel(u, ys)
@@ -729,4 +747,99 @@ func (st *c05State) coqCase(u *c05Univ, px *c05ProbeX, sub *c05Sub, ys, gs map[s
 		}
 	}
 	return nil
+}
+
+// collectExtras compares the host-stream programs line by line and the witnesses as a whole.
+func (st *c05State) collectExtras(dump string) (synthetic []*c05Unit) {
+	sm := st.sm
+	for _, e := range st.extras {
+		if e.expect != "" {
+			// witness of a finding: attributed only if yaegi still produces the recorded wrong output
+			sm.Evaluations++
+			sm.RefComparisons++
+			sm.count("witness")
+			e.input["source"] = e.src
+			sm.CaseIndex[fmt.Sprint(e.id)] = e.input
+			got := e.y.Stdout + "\x00" + e.y.End
+			if e.expect == "host-crash" {
+				got = e.y.End
+			}
+			if e.wit != nil && e.wit.Univ != nil {
+				// the witness' selector as a case for the models
+				obsY := "OOther"
+				switch {
+				case e.y.End == "host-crash":
+					obsY = "(OSel RCrash)"
+				case e.y.Stdout == e.refOut:
+					obsY = "(OSel " + e.wit.Univ.gSelect(e.wit.SelT, e.wit.SelN).coq() + ")"
+				}
+				obsG := "(OSel " + e.wit.Univ.gSelect(e.wit.SelT, e.wit.SelN).coq() + ")"
+				c := &c05Case{ID: e.id, Kind: "psel", Region: e.region,
+					Coq: fmt.Sprintf("(%s, %d, %s, FSel, %s, %s)", coqN(e.id), e.wit.SelT, coqStr(e.wit.SelN), obsY, obsG)}
+				synthetic = append(synthetic, &c05Unit{u: e.wit.Univ, cases: []*c05Case{c}})
+				sm.ImplComparisons++
+			}
+			ref := e.refOut + "\x00" + e.refEnd
+			if e.y.Stdout == e.refOut && e.y.End == e.refEnd {
+				continue // repaired
+			}
+			region := "" // differs from Go in a way the finding does not describe
+			for _, alt := range strings.Split(e.expect, "||") {
+				if got == alt {
+					region = e.region
+				}
+			}
+			sm.RefMismatches = append(sm.RefMismatches, refMismatch{ID: e.id, Region: region, Input: e.input, Impl: got, Ref: ref, Note: "fixed witness " + e.name})
+			continue
+		}
+		yl, gl := strings.Split(e.y.Stdout, "\n"), strings.Split(e.refOut, "\n")
+		n := len(gl)
+		if len(yl) > n {
+			n = len(yl)
+		}
+		sm.count("host programs")
+		bad := false
+		for i := 0; i < n; i++ {
+			var a, b string
+			if i < len(yl) {
+				a = yl[i]
+			}
+			if i < len(gl) {
+				b = gl[i]
+			}
+			if a == "" && b == "" {
+				continue
+			}
+			sm.Evaluations++
+			sm.RefComparisons++
+			sm.count("host:line")
+			st.distinct.add("host", e.src, fmt.Sprint(i))
+			if a != b && !bad {
+				bad = true
+				in := map[string]any{}
+				for k, v := range e.input {
+					in[k] = v
+				}
+				in["source"] = e.src
+				in["line"] = i
+				sm.CaseIndex[fmt.Sprint(e.id+i)] = in
+				sm.RefMismatches = append(sm.RefMismatches, refMismatch{ID: e.id + i, Region: "", Input: in, Impl: a + " [" + e.y.End + "]", Ref: b})
+			}
+		}
+		if e.y.End != "ok" && !bad {
+			in := map[string]any{"source": e.src}
+			sm.CaseIndex[fmt.Sprint(e.id+999)] = in
+			sm.RefMismatches = append(sm.RefMismatches, refMismatch{ID: e.id + 999, Region: "", Input: in, Impl: e.y.End, Ref: e.refEnd})
+			bad = true
+		}
+		if bad && dump != "" {
+			os.MkdirAll(dump, 0o755)
+			os.WriteFile(filepath.Join(dump, e.name+".go"), []byte(e.src), 0o644)
+			os.WriteFile(filepath.Join(dump, e.name+".out"), []byte("--- yaegi "+e.y.End+"\n"+e.y.Stdout+"--- go "+e.refEnd+"\n"+e.refOut), 0o644)
+		}
+		if len(sm.Samples) < 6 && e.id%7000 == 0 {
+			sm.Samples = append(sm.Samples, map[string]any{"program": e.name, "source": e.src})
+		}
+	}
+	return synthetic
 }
